@@ -28,7 +28,7 @@ var (
 	tokMid  = []string{"x", "-", "--", "-a", "--aa", "-b", "-ab", "-o", "-ov", "--out=v", "-ao", "-z"}
 	tokTiny = []string{"x", "-", "--", "-a", "-b", "-ab", "-ov", "-z"}
 	// built-in value types: additionally values with surrounding blanks (must be bound byte for byte)
-	tokBuiltin = append(append([]string{}, tokMid...), " x ", "-o v ")
+	tokBuiltin = append(append([]string{}, tokMid...), " x ", "-o v ", "-ov\xff\xfe")
 )
 
 func init() {
@@ -306,7 +306,7 @@ func judgeLang(c *Ctx, d *ref.Decl, spec string, node *ref.Node, argv []string, 
 		c.Count("nontrivial", 1)
 	}
 	mkCase := func() Case {
-		return Case{"spec": spec, "argv": argv, "builtin": builtin, "decl": "std", "go_test": langGoTest(spec, argv)}
+		return Case{"spec": spec, "argv": argv, "argv_hex": hxs(argv), "builtin": builtin, "decl": "std", "go_test": langGoTest(spec, argv)}
 	}
 	key := fmt.Sprintf("spec=%q argv=%q", spec, argv)
 	if builtin {
